@@ -554,14 +554,10 @@ func appendString(dst, src []byte, encode bool) []byte {
 	}
 	// TODO: Encode only if length is lower with the string encoded
 
+	// the length gets an octet of its own, whatever the octet before it is
 	n := uint64(len(b))
-	nn := len(dst) - 1 // peek last byte
-	if nn >= 0 && dst[nn] != 0 {
-		dst = append(dst, 0)
-		nn++
-	}
-
-	dst = appendInt(dst, 7, n)
+	nn := len(dst)
+	dst = appendInt(append(dst, 0), 7, n)
 	dst = append(dst, b...)
 
 	if encode {
@@ -618,7 +614,7 @@ func (hp *HPACK) AppendHeader(dst []byte, hf *HeaderField, store bool) []byte {
 				}
 			}
 		} else if !store || hp.DisableDynamicTable { // with or without indexing
-			dst = append(dst, 0, 0)
+			dst = append(dst, 0)
 		} else {
 			dst = append(dst, literalByte)
 			hp.addDynamic(hf)
